@@ -11,9 +11,12 @@ import (
 	"fmt"
 	"math/big"
 	"os"
+	"reflect"
 	"runtime/debug"
+	"sort"
 	"strconv"
 	"time"
+	"unsafe"
 
 	"github.com/0chain/common/core/logging"
 	"github.com/herumi/bls-go-binary/bls"
@@ -296,4 +299,160 @@ func BLSAddMul(sig, d string, c int64) string {
 		panic(err)
 	}
 	return out.SerializeToHexStr()
+}
+
+// Havoc replaces every integer / bool leaf reachable from *ptr (struct fields incl. unexported,
+// arrays, slices other than byte strings, pointers, map values in sorted key order; strings and
+// floats are left alone) by a nondeterministic value named "hv". Under the executor the leaves
+// become fresh symbols; natively they are read from the replay vector in the same order.
+func Havoc(ptr interface{}) {
+	v := reflect.ValueOf(ptr)
+	if v.Kind() != reflect.Ptr || v.IsNil() {
+		panic("sym.Havoc needs a non-nil pointer")
+	}
+	havoc(v.Elem(), 0)
+}
+
+func settable(v reflect.Value) reflect.Value {
+	if v.CanSet() {
+		return v
+	}
+	if v.CanAddr() {
+		return reflect.NewAt(v.Type(), unsafe.Pointer(v.UnsafeAddr())).Elem()
+	}
+	return v
+}
+
+func isSync(t reflect.Type) bool {
+	for t.Kind() == reflect.Ptr {
+		t = t.Elem()
+	}
+	return t.PkgPath() == "sync"
+}
+
+func havoc(v reflect.Value, depth int) {
+	if depth > 12 {
+		return
+	}
+	v = settable(v)
+	switch v.Kind() {
+	case reflect.Bool:
+		v.SetBool(Bool("hv"))
+	case reflect.Int, reflect.Int64, reflect.Int32, reflect.Int16, reflect.Int8:
+		v.SetInt(I64("hv"))
+	case reflect.Uint, reflect.Uint64, reflect.Uint32, reflect.Uint16, reflect.Uint8, reflect.Uintptr:
+		v.SetUint(U64("hv"))
+	case reflect.Struct:
+		for i := 0; i < v.NumField(); i++ {
+			f := v.Type().Field(i)
+			if f.Name == "_" || isSync(f.Type) {
+				continue
+			}
+			havoc(v.Field(i), depth+1)
+		}
+	case reflect.Array:
+		for i := 0; i < v.Len(); i++ {
+			havoc(v.Index(i), depth+1)
+		}
+	case reflect.Slice:
+		if v.Type().Elem().Kind() == reflect.Uint8 {
+			return
+		}
+		for i := 0; i < v.Len(); i++ {
+			havoc(v.Index(i), depth+1)
+		}
+	case reflect.Ptr:
+		if !v.IsNil() {
+			havoc(v.Elem(), depth+1)
+		}
+	case reflect.Map:
+		if v.IsNil() {
+			return
+		}
+		keys := v.MapKeys()
+		sort.Slice(keys, func(i, j int) bool { return fmt.Sprint(keys[i].Interface()) < fmt.Sprint(keys[j].Interface()) })
+		for _, k := range keys {
+			e := reflect.New(v.Type().Elem()).Elem()
+			e.Set(v.MapIndex(k))
+			havoc(e, depth+1)
+			v.SetMapIndex(k, e)
+		}
+	}
+}
+
+// DeepEqual is structural equality of two values of the same type (unexported fields
+// included, sync primitives skipped) in which a nil slice or map equals an empty one.
+func DeepEqual(a, b interface{}) bool {
+	if a == nil || b == nil {
+		return a == nil && b == nil
+	}
+	va, vb := reflect.ValueOf(a), reflect.ValueOf(b)
+	if va.Type() != vb.Type() {
+		return false
+	}
+	return deepEq(va, vb, 0)
+}
+
+func deepEq(a, b reflect.Value, depth int) bool {
+	if depth > 16 {
+		return true
+	}
+	switch a.Kind() {
+	case reflect.Struct:
+		for i := 0; i < a.NumField(); i++ {
+			f := a.Type().Field(i)
+			if f.Name == "_" || isSync(f.Type) {
+				continue
+			}
+			if !deepEq(a.Field(i), b.Field(i), depth+1) {
+				return false
+			}
+		}
+		return true
+	case reflect.Array, reflect.Slice:
+		if a.Len() != b.Len() {
+			return false
+		}
+		for i := 0; i < a.Len(); i++ {
+			if !deepEq(a.Index(i), b.Index(i), depth+1) {
+				return false
+			}
+		}
+		return true
+	case reflect.Ptr:
+		if a.IsNil() || b.IsNil() {
+			return a.IsNil() && b.IsNil()
+		}
+		return deepEq(a.Elem(), b.Elem(), depth+1)
+	case reflect.Map:
+		if a.Len() != b.Len() {
+			return false
+		}
+		for _, k := range a.MapKeys() {
+			bv := b.MapIndex(k)
+			if !bv.IsValid() || !deepEq(a.MapIndex(k), bv, depth+1) {
+				return false
+			}
+		}
+		return true
+	case reflect.Interface:
+		if a.IsNil() || b.IsNil() {
+			return a.IsNil() && b.IsNil()
+		}
+		if a.Elem().Type() != b.Elem().Type() {
+			return false
+		}
+		return deepEq(a.Elem(), b.Elem(), depth+1)
+	case reflect.Bool:
+		return a.Bool() == b.Bool()
+	case reflect.Int, reflect.Int64, reflect.Int32, reflect.Int16, reflect.Int8:
+		return a.Int() == b.Int()
+	case reflect.Uint, reflect.Uint64, reflect.Uint32, reflect.Uint16, reflect.Uint8, reflect.Uintptr:
+		return a.Uint() == b.Uint()
+	case reflect.Float32, reflect.Float64:
+		return a.Float() == b.Float()
+	case reflect.String:
+		return a.String() == b.String()
+	}
+	return true
 }
